@@ -7,7 +7,7 @@ HERE = os.path.dirname(os.path.dirname(os.path.abspath(__file__)))
 
 CLAIMED = {
     "C01": ("5/C01", "run invariant under seeded simulation",
-            "Every row of every simulated rebalance run (swarm of workloads, batch sizes, inline vs pickled-process worker semantics, task schedules, thresholds, clock jumps, MCS-stage faults, worker failures at drawn Parallel calls) is checked against an independent element/charge balance oracle; the input dimension is the committed corpus plus (thorough) the shipped validation set, i.e. sampling."),
+            "Every row of every simulated rebalance run (swarm of workloads, batch sizes, inline vs pickled-process worker semantics, task schedules, thresholds, clock jumps, MCS-stage faults, worker failures at drawn Parallel calls, failures inside single composition counts) is checked against an independent element/charge balance oracle; the input dimension is the committed corpus plus (thorough) the shipped validation set, i.e. sampling."),
     "C02": ("5/C02", "run invariant under seeded simulation",
             "Molecule-multiset containment oracle (independent atom-map stripping and canonicalisation) on every row of the same kind of simulated runs, incl. revert paths after injected MCS faults, equivalent respellings (random order, kekulised, atom-mapped, explicit H), marker-prefixed and placeholder-spelled given molecules; little schedule content beyond the id/position plumbing, said plainly."),
     "C03": ("5/C03", "run invariant under seeded simulation with fault injection",
@@ -15,7 +15,7 @@ CLAIMED = {
     "C04": ("5/C04", "run invariant + corpus sweep under seeded simulation",
             "Balanced reactions (corpus, reversals, multiples, unions; thorough: the shipped curated balanced reactions) placed between rows that every stage edits, under all batchings/worker semantics; verdict compared with an independent balance oracle in both directions."),
     "C05": ("5/C05", "seeded simulation with poison-row data faults",
-            "Malformed rows are injected as data faults at drawn positions of every batch layout and input form (list, dict, CSV, JSON, CLI with pass-through columns); row count, order, per-row identity against solo reference rows and CLI pass-through alignment are checked (duplicates, empty records, pandas index columns, quoted / multi-line cells, heterogeneous records)."),
+            "Malformed rows are injected as data faults at drawn positions of every batch layout (incl. whole malformed batches aligned to the batch size, batch size given through the constructor and/or per call) and input form (list, dict, CSV, JSON, CLI with pass-through columns); row count, order, per-row identity against solo reference rows and CLI pass-through alignment are checked (duplicates, empty records, pandas index columns, quoted / multi-line cells, heterogeneous records)."),
     "C06": ("5/C06", "seeded simulation of batch contexts vs solo reference",
             "Permutations x partitions x worker counts (inline vs pickled-process semantics per call site, per-worker module state) x task completion orders x earlier calls on the same Balancer, each row compared with the reaction's solo row and statistics with the sum of solo statistics; plus plans with one fixed set of injected MCS-stage failures in every context, compared across contexts."),
     "C10": ("5/C10", "seeded simulation + enumerated failed-job patterns with outside taps",
@@ -23,13 +23,13 @@ CLAIMED = {
     "C11": ("5/C11", "deterministic simulation with fault injection (timeouts, zombie threads, RDKit budget exhaustion)",
             "Timeouts/hangs/exceptions injected into arbitrary subsets of search and fragment jobs and RDKit calls; timed-out jobs continue as real threads stepped line by line by the scheduler while the pipeline reads the shared record; each faulty run is judged row by row against its fault-free twin, and the fault-free run after the faults stopped must equal the run on pristine process state; all job subsets of small batches are enumerated."),
     "C12": ("5/C12", "deterministic simulation of run histories over a simulated cache directory with crash-point enumeration",
-            "Histories of runs on an in-memory file system with kills at byte N / before file creation, ENOSPC, lost files and configuration changes between runs (threshold, reaction column, atom-map removal, selected columns; through the constructor or by attribute assignment); every completed run is compared with the same run uncached; crash points are byte offsets, write()-call boundaries and file-system operation boundaries (open/close/rename); thorough enumerates all of them for fixed runs."),
+            "Histories of runs on an in-memory file system with kills at byte N / before file creation, ENOSPC, EIO on read / replace / open (also placed on certain cache hits), lost files and configuration changes between runs (threshold, reaction column, atom-map removal, selected columns; through the constructor or by attribute assignment); every completed run is compared with the same run uncached; crash points are byte offsets, write()-call boundaries and file-system operation boundaries (open/close/rename); thorough enumerates all of them for fixed runs."),
     "C13": ("5/C13", "configuration sweep on a frozen simulated schedule",
             "Same plan (rows, batching, schedule, faults) re-run with only the threshold changed, at 0, 1, every observed confidence, its float neighbours and +-0.001; boundary, independence of other rows and monotonicity are relations between those runs; duplicates in a batch and failures of the scoring step are injected too."),
     "C18": ("5/C18", "run invariant under seeded simulation",
             "Statistics-vs-rows relations on every simulated run incl. batching, thresholds (also equal to the run's own confidences), faulted MCS stages, malformed rows, failed batches and CLI runs whose .stats file is parsed back."),
     "C19": ("5/C19", "history search against a reference model (exhaustive short + seeded long)",
-            "All operation histories up to length 4 (quick) / 5 (thorough) from the empty database over a 19-letter alphabet plus seeded long histories from the shipped rule files, compared with a list model after every step; no fault kind applies to this in-memory object."),
+            "All operation histories up to length 4 (quick) / 5 (thorough) from the empty database over a 19-letter alphabet plus all letter triples with the database persisted and reopened between edits (deep copy / save_database+load_database) plus seeded long histories from the shipped rule files, compared with a list model after every step; no fault kind applies to this in-memory object."),
 }
 NOTE = ("Sampling, not proof. Trusted: RDKit parser/sanitiser/canonicaliser/substructure matcher (oracles), cloudpickle round trip as the model of "
         "loky process semantics, CPython sys.monitoring LINE events as pre-emption points, PYTHONHASHSEED pinned to 0 (fgutils is hash-order dependent). "
